@@ -300,6 +300,8 @@ func (f *fixture) exchange(kind string, msg []byte, via string, wait time.Durati
 			c.Write(fr[:k])
 			time.Sleep(3 * time.Millisecond)
 			c.Write(fr[k:])
+		case "raw": // msg is written as it is: the client chooses the length prefix (it may lie)
+			c.Write(msg)
 		default:
 			c.Write(fr)
 		}
@@ -349,7 +351,11 @@ func (f *fixture) exchange(kind string, msg []byte, via string, wait time.Durati
 		if err != nil {
 			return exchResult{status: "err:stream"}
 		}
-		s.Write(frame(msg))
+		if via == "raw" {
+			s.Write(msg)
+		} else {
+			s.Write(frame(msg))
+		}
 		s.Close()
 		s.SetReadDeadline(time.Now().Add(wait))
 		b, err := readFrame(s)
